@@ -81,6 +81,7 @@ type interpreter struct {
 	sizes              types.Sizes
 	cfg                *Config
 
+	builders    map[*value]*strings.Builder
 	syncMaps    map[*value]*syncMapState
 	randCounter int
 	stalls      int
